@@ -55,6 +55,11 @@ func init() {
 			}},
 		Rule{ID: "C06.g", Explain: "index convention for blind attributes (position i+1, slot must be nil before issuance) agrees between NewCredentialBuilder, Issuer.signCommitmentAndAttributes and ConstructCredential; the commitment U has the specified symbolic form.",
 			Run: func(P *Program, R *Report) { blindConventionRule(P, R) }},
+		Rule{ID: "C06.i", Explain: "honest issuance succeeds: ConstructCredential, ProofS.Verify and everything below them, and the verification of the commitment proof (tree 'show'), have no rejecting branch besides the specified reasons.",
+			Run: func(P *Program, R *Report) {
+				treeRejectionsRule(P, R, "C06.i", "issue", "the credential construction call tree")
+				treeRejectionsRule(P, R, "C06.i", "show", "the verification call tree")
+			}},
 		Rule{ID: "C06.h", Explain: "the signature check used by ConstructCredential enforces the e interval and primality (C05.a run under this property).",
 			Run: func(P *Program, R *Report) {
 				sub := newReport(R.Prop, R.Tier, P)
